@@ -1,7 +1,6 @@
 // ---- executor::State: the scalar store and expression evaluation against it ------------------
-// (the memory component is an opaque stand-in in this file; execute() for Store/Load is in state_exec.rs)
-#[verifier::external_body]
-pub struct Memory { _p: () }
+// (the memory component is the real `executor::Memory = memory::paged::Memory<il::Constant>`, under unit C08's
+//  contracts; execute() is in units/C07/state_exec.rs)
 
 //@ source lib/executor/state.rs
 //@ item struct State
@@ -100,6 +99,27 @@ pub proof fn lemma_sym_eval(st: IMap<Seq<char>, Constant>, e: Expression)
             Expression::Zext(b, x) | Expression::Sext(b, x) | Expression::Trun(b, x) => { lemma_sym_eval(st, *x); }
             Expression::Ite(c, t, f) => { lemma_sym_eval(st, *c); lemma_sym_eval(st, *t); lemma_sym_eval(st, *f); }
         }
+    }
+}
+
+/// widths of well-sorted expressions are in 1..=MAX_BITS (same statement as unit C04's lemma of that name in
+/// units/C04/builders.rs, which is not included in this unit; proved here)
+pub proof fn lemma_expr_wf_bits(e: Expression)
+    requires expr_wf(e),
+    ensures 1 <= expr_bits(e) <= MAX_BITS(),
+    decreases e,
+{
+    match e {
+        Expression::Scalar(s) => {}
+        Expression::Constant(c) => {}
+        Expression::Add(l, r) | Expression::Sub(l, r) | Expression::Mul(l, r) | Expression::Divu(l, r)
+        | Expression::Modu(l, r) | Expression::Divs(l, r) | Expression::Mods(l, r) | Expression::And(l, r)
+        | Expression::Or(l, r) | Expression::Xor(l, r) | Expression::Shl(l, r) | Expression::Shr(l, r)
+        | Expression::AShr(l, r) => { lemma_expr_wf_bits(*l); }
+        Expression::Cmpeq(l, r) | Expression::Cmpneq(l, r) | Expression::Cmplts(l, r) | Expression::Cmpltu(l, r) => {}
+        Expression::Zext(b, x) | Expression::Sext(b, x) => { lemma_expr_wf_bits(*x); }
+        Expression::Trun(b, x) => { lemma_expr_wf_bits(*x); }
+        Expression::Ite(c, t, f) => { lemma_expr_wf_bits(*t); }
     }
 }
 
